@@ -1,6 +1,7 @@
 import Spine.Cmd
 import Spine.SchemaLookup
 import Spine.JsonThm
+import Spine.JsonNorm
 /-!
 # C18, part 3 — encoding any data-model value and decoding it again yields an equivalent value
 
@@ -18,6 +19,13 @@ open Spine.Json Spine.Generated Spine.Cmd
     byte slice, embedded or unexported field, `json:"-"`, tag option other than `omitempty`, recursive
     type; `TimePeriodType` is the only type with its own (un)marshaler. -/
 theorem c18_schema_fragment : schemaOdd = [] ∧ schemaCustom = ["TimePeriodType"] := by decide
+
+/-- The same from the SOURCES: the only (Un)MarshalJSON / (Un)MarshalText methods declared (go/ast over every
+    non-test file) for a type of the wire schema are the pair of `TimePeriodType` — the pair `Spine.PeriodJson`
+    models, both directions present — and the types they belong to are exactly the types reflection reports. -/
+theorem c18_custom_marshalers_from_source :
+    schemaCustomMethods = [("TimePeriodType", "MarshalJSON"), ("TimePeriodType", "UnmarshalJSON")] ∧
+    (schemaCustomMethods.map (·.1)).eraseDups = schemaCustom := by decide
 
 /-- Every struct type reachable from `model.Datagram` is well-formed: json names distinct per struct,
     pointers and slice elements of non-nullable type, `omitempty` only on pointer and slice fields. -/
@@ -59,6 +67,29 @@ example : wf exTy = true ∧ typed exTy exV = true ∧
   refine ⟨by decide, by decide, ?_, ?_⟩
   · simp [exTy, exV, encode, encodeFields, encodeList, decode, decodeFields, decodeList, lookup, isEmptyV]
   · simp [exTy, exV, norm, normFields, normList, isEmptyV]
+
+/-- "Absent and empty lists are not distinguished", made exact: for every type of the data model, the
+    round trip returns the VERY SAME value if and only if the value holds no empty (non-nil) list in an
+    `omitempty` field. (All other values change, and only there: `c18_norm_equiv`.) -/
+theorem c18_roundtrip_identity_iff : ∀ p ∈ schema, ∀ v : V, typed p.2.2 v = true →
+    (decode p.2.2 (encode p.2.2 v) = some v ↔ hasEmptyOmit p.2.2 v = false) :=
+  fun p hp v hv => decode_encode_id_iff p.2.2 v (c18_schema_wf p hp) hv
+
+/-- A value that has been through the wire once is stable: it is well typed, holds no empty `omitempty`
+    list, and every further round trip returns it unchanged. So the equivalence of the property is
+    needed only for values an application stored locally, never for what a peer sent. -/
+theorem c18_roundtrip_stable : ∀ p ∈ schema, ∀ v : V, typed p.2.2 v = true →
+    typed p.2.2 (norm p.2.2 v) = true ∧ hasEmptyOmit p.2.2 (norm p.2.2 v) = false ∧
+    decode p.2.2 (encode p.2.2 (norm p.2.2 v)) = some (norm p.2.2 v) :=
+  fun p hp v hv => ⟨typed_norm p.2.2 v hv, norm_clean p.2.2 v, decode_encode_twice p.2.2 v (c18_schema_wf p hp) hv⟩
+
+/-- non-vacuity: `exV` holds an empty `omitempty` list and is changed; its normal form does not and is a
+    fixed point; a value with a non-empty list only is returned as it is -/
+example : hasEmptyOmit exTy exV = true ∧ hasEmptyOmit exTy (norm exTy exV) = false ∧
+    hasEmptyOmit exTy (.strct [.nil, .list [.num 7], .some (.str "x")]) = false ∧
+    norm exTy (norm exTy exV) = norm exTy exV := by
+  refine ⟨?_, ?_, ?_, ?_⟩ <;>
+    simp [exTy, exV, hasEmptyOmit, hasEmptyOmitFields, hasEmptyOmitList, norm, normFields, normList, isEmptyV]
 
 /-- The payload, selectors and elements type of every registered function is a type of the schema (so
     `c18_decode_encode` speaks about its values). -/
